@@ -505,6 +505,7 @@ def node_kinds(node, acc):
 
 
 SYM_MAX_LEAVES = 40      # sympy's own cost explodes beyond (a 2-mode circuit of 86 components: > 10 s inside sympy)
+SYM_HIST_MAX_LEAVES = 18  # pool histories: entries of 3-4 modes with 30-40 leaves (references multiply them) cost sympy minutes
 
 
 def sym_to_np(sym, subs=None, leaves=None):
@@ -814,7 +815,7 @@ def run_pool_history(chk, hist, count=True):
                         f"a binding it should not", where)
             if not np.allclose(u @ u.conj().T, np.eye(m_i), atol=1e-8):
                 return ("violation", "not-unitary", f"after {step} operations compute_unitary() is not unitary", where)
-            if op.get("sym") and len(spec_flat) <= SYM_MAX_LEAVES:
+            if op.get("sym") and len(spec_flat) <= SYM_HIST_MAX_LEAVES:
                 kinds = node_kinds(node, set())
                 try:
                     if op["sym"] == 2 and params:
